@@ -7,7 +7,7 @@ class FewshotWrapper(KDSubset):
     def __init__(self, dataset, num_shots, seed=0):
         classes = np.array([dataset.getitem_class(i) for i in range(len(dataset))])
         rng = np.random.default_rng(seed=seed)
-        num_classes = np.max(classes) + 1
+        num_classes = int(np.max(classes)) + 1
         indices = []
         arange = np.arange(len(dataset))
         for i in range(num_classes):
